@@ -342,7 +342,7 @@ Proof.
   { apply str_eqb_eq in E8. subst local. vm_compute in Hfind. inversion Hfind; subst mn mx.
     destruct vs as [|v t]; [cbn [len] in Harity; lia|]. inversion Hvs as [|v' t' Hv Ht]; subst. cbn [fst].
     destruct (val_to_string_ok v Hv) as [s ->]. cbn [bind].
-    destruct (lang_fuel_ok doc Hwf s (nav_fuel doc) n (G_valid n Gn)) as [b ->]; [|exact I].
+    destruct (lang_fuel_ok doc Hwf (map ascii_lower s) (nav_fuel doc) n (G_valid n Gn)) as [b ->]; [|exact I].
     unfold nav_fuel. pose proof (G_valid n Gn) as V. unfold valid in V. lia. }
   destruct (str_eqb local fn_sum) eqn:E9.
   { apply str_eqb_eq in E9. subst local. vm_compute in Hfind. inversion Hfind; subst mn mx.
